@@ -354,7 +354,11 @@ func runSnapshots(g *vlib.Rng) {
 			checkSnap("raw", sc)
 		}
 	}
-	bigSnapshot(g)
+	if r.Violations() == 0 {
+		bigSnapshot(g)
+	} else {
+		r.Hit("snap:big-snapshot-skipped(earlier cases already failed)")
+	}
 	// through the public API of a fresh database (no UTXO.db yet, CompressRecords from the configuration)
 	for _, k := range []int{1, 5, 100} {
 		for _, c := range []bool{false, true} {
